@@ -282,6 +282,12 @@ def model_binary():
     return extract.build("num", "NumExtract.v", "num_driver.ml")
 
 
+# which version of the hand-written models the implementation is compared with: "fixed" (default: the code
+# with fixes/num-overflow-panics-in-every-build, num-byte-zero-divisor, num-rem-min-by-minus-one, fold-negate .diff) or "orig" (VERIF_NUM_MODEL=orig: the code
+# before those fixes; then the known classes must be listed in known_findings.json)
+MODEL_VERSION = os.environ.get("VERIF_NUM_MODEL", "fixed")
+
+
 def run_model(ctx, cases, shards=None):
     """-> list of dicts {fixed, spec, trap, wrap} (canonical tokens) from the extracted Coq models"""
     from . import programs
@@ -301,7 +307,9 @@ def run_model(ctx, cases, shards=None):
         for l in out.decode().split("\n"):
             if l:
                 f = [canon(x) for x in l.split("\t")]
-                rows.append({"fixed": f[0], "spec": f[1], "trap": f[2], "wrap": f[3]})
+                rows.append({"fixed": f[0], "spec": f[1], "trap": f[2], "wrap": f[3],
+                             "debug": f[0] if MODEL_VERSION == "fixed" else f[2],
+                             "release": f[0] if MODEL_VERSION == "fixed" else f[3]})
         assert len(rows) == len(chunk), (len(rows), len(chunk))
         return rows
 
